@@ -62,6 +62,10 @@ def tbl (ws : List String) : String :=
   | ["settkl", b, k] => match (hdrOf (nat! b)).setTkl (UInt8.ofNat (nat! k)) with
       | .ok h => toString h.vtt.toNat
       | _ => "panic"
+  | ["deccode", b] =>
+      let c := MessageClass.ofU8 (nat! b)
+      let n := c.toU8
+      s!"{n} {n / 32}.{if n % 32 < 10 then "0" else ""}{n % 32} {n}"
   | ["errctor", name] =>
       let c : Option (Option ResponseType) := match name with
         | "notHandled" => some HandlingErrorCode.notHandled
